@@ -67,6 +67,38 @@ fn main() {
         }
         return;
     }
+    if inp.contains("\"framing_boundary_check\"") {
+        let (n, r) = standins::check_framing_boundaries();
+        match r {
+            Some(d) => println!("{{\"outcome\": \"violation\", \"detail\": \"{}\", \"tried\": {}}}", esc(&d), n),
+            None => println!("{{\"outcome\": \"ok\", \"detail\": \"framing entry points agree with the contract on {} boundary cases\", \"tried\": {}}}", n, n),
+        }
+        return;
+    }
+    if inp.contains("\"serializer_roundtrip_check\"") {
+        let (n, r) = standins::check_serializer_roundtrip();
+        match r {
+            Some(d) => println!("{{\"outcome\": \"violation\", \"detail\": \"{}\", \"tried\": {}}}", esc(&d), n),
+            None => println!("{{\"outcome\": \"ok\", \"detail\": \"{} records / messages / extension lists serialize with exact length fields, parse back completely and re-serialize identically\", \"tried\": {}}}", n, n),
+        }
+        return;
+    }
+    if inp.contains("\"debug_format_check\"") {
+        let (n, r) = standins::check_debug_format();
+        match r {
+            Some(d) => println!("{{\"outcome\": \"violation\", \"detail\": \"{}\", \"tried\": {}}}", esc(&d), n),
+            None => println!("{{\"outcome\": \"ok\", \"detail\": \"{} (parser, input) pairs: every Ok value formats with Debug without panic\", \"tried\": {}}}", n, n),
+        }
+        return;
+    }
+    if inp.contains("\"sct_list_check\"") {
+        let (n, r) = standins::check_sct_lists();
+        match r {
+            Some(d) => println!("{{\"outcome\": \"violation\", \"detail\": \"{}\", \"tried\": {}}}", esc(&d), n),
+            None => println!("{{\"outcome\": \"ok\", \"detail\": \"{} SCT lists of 0..5 well-formed entries decode in order with every field exact\", \"tried\": {}}}", n, n),
+        }
+        return;
+    }
     if inp.contains("\"multi_record_check\"") {
         let (n, r) = standins::check_multi_record();
         match r {
